@@ -81,8 +81,8 @@ InstModel(d) ==
                   [r \in 1..n |-> Pick(Pal, ds[4 + NRxns + r])], c,
                   IF ds[4 + 2 * NRxns + 1] % 5 = 0 THEN "min" ELSE "max")
 \* further draws for the argument choices of an instance
-ArgDraws(d) == IF Mode = "full" THEN Draws(LCG(d.oc * 97 + d.bd[1] * 13 + d.sh[1] + d.sh[NRxns] * 7), 40)
-               ELSE Draws(LCG(d.rng + 12345), 40)
+ArgDraws(d) == IF Mode = "full" THEN Draws(LCG(d.oc * 97 + d.bd[1] * 13 + d.sh[1] + d.sh[NRxns] * 7), 44)
+               ELSE Draws(LCG(d.rng + 12345), 44)
 
 \* ---------------------------------------------------------------- C09: calls
 \* a reference solution of the model before knock-out: the optimal lattice point that is extreme
@@ -163,7 +163,8 @@ WithRules(M, ds, k) ==
 DrawList(n, ds, k) == [i \in 1..((ds[k] % 3) + 1) |-> (ds[k + i] % n) + 1]
 
 NoDel == [k |-> "none", method |-> "fba", l1 |-> <<>>, l1given |-> FALSE, l2 |-> <<>>, l2given |-> FALSE,
-          byobj |-> FALSE, ref |-> <<>>, refgiven |-> FALSE, refobj |-> 0, tdefault |-> TRUE, tnum |-> 0, tden |-> 1]
+          byobj |-> FALSE, ref |-> <<>>, refgiven |-> FALSE, refobj |-> 0, tdefault |-> TRUE, tnum |-> 0, tden |-> 1,
+          prior |-> <<>>, pmode |-> "none", pctx |-> FALSE]
 BuildC06(d) ==
   LET M0 == InstModel(d) ds == ArgDraws(d) F0 == Feasible(M0) IN
   IF ~(IsUnitNetwork(M0) /\ (Mode = "rand" \/ (HasOptF(F0, M0) /\ Interesting(F0, M0)))) THEN [skip |-> TRUE]
@@ -193,7 +194,23 @@ BuildC06(d) ==
              <<[base EXCEPT !.k = "ess_r"], [base EXCEPT !.k = "ess_r", !.tdefault = FALSE, !.tnum = half, !.tden = 2]>>
              \o (IF ng = 0 THEN <<>> ELSE
                  <<[base EXCEPT !.k = "ess_g"], [base EXCEPT !.k = "ess_g", !.tdefault = FALSE, !.tnum = half, !.tden = 2]>>)
-  IN [skip |-> FALSE, M |-> M, calls |-> fba \o lm \o ess]
+      \* prior knock-out states: the model already carries non-functional genes (positions pr) when the
+      \* analysis runs -- knocked out ("ko") or only flagged ("flag"), outside or inside an enclosing context
+      gset(q) == {M.genes[q[i]] : i \in 1..Len(q)}
+      cand == SelectSeq([g \in 1..ng |-> g], LAMBDA g : GeneKO(M, {M.genes[g]}) = {})      \* flag: no rule false yet
+      pr1 == IF ng > 0 THEN <<(ds[34] % ng) + 1>> ELSE <<>>
+      pr2 == IF ng > 0 THEN <<(ds[35] % ng) + 1, (ds[36] % ng) + 1>> ELSE <<>>
+      prf == IF cand # <<>> THEN <<Pick(cand, ds[37])>> ELSE <<>>
+      pri(c, q, md, cx) == [c EXCEPT !.prior = q, !.pmode = md, !.pctx = cx]
+      prior == IF ng < 2 THEN <<>> ELSE
+               <<pri(fba[5], pr1, "ko", FALSE), pri(fba[7], pr1, "ko", TRUE), pri(fba[6], pr2, "ko", ds[38] % 2 = 0),
+                 pri(fba[1], pr1, "ko", ds[38] % 2 = 1)>>
+               \o (IF prf = <<>> THEN <<>> ELSE
+                   <<pri(fba[5], prf, "flag", ds[39] % 2 = 0), pri(fba[7], prf, "flag", ds[39] % 2 = 1)>>)
+               \o (IF ~h THEN <<>> ELSE
+                   <<pri([base EXCEPT !.k = "ess_g"], pr1, "ko", ds[40] % 2 = 0)>>
+                   \o (IF prf = <<>> THEN <<>> ELSE <<pri([base EXCEPT !.k = "ess_g"], prf, "flag", ds[40] % 2 = 1)>>))
+  IN [skip |-> FALSE, M |-> M, calls |-> fba \o lm \o ess \o prior]
 
 \* ---------------------------------------------------------------- C18: media
 CompOf(nm) == [m \in 1..nm |-> IF m < nm \/ nm = 1 THEN "e" ELSE "c"]       \* the last metabolite is internal
@@ -355,6 +372,16 @@ ThmRefsInScope ==
 Perms(S) == {p \in [1..Cardinality(S) -> S] : \A i, j \in 1..Cardinality(S) : i # j => p[i] # p[j]}
 ThmGeneKOProtocol ==
   Built => \A K \in SUBSET SeqSet(out.M.genes) : \A p \in Perms(K) : SeqGeneKO(out.M, p, {}, {}) = GeneKO(out.M, K)
+\* the same from every prior knock-out state: _gene_deletion (one Gene.knock_out per requested gene)
+\* forces exactly the reactions to zero whose rule is false for the requested AND the already
+\* non-functional genes
+ThmGeneDeletionPrior ==
+  Built => LET GS == SeqSet(out.M.genes) IN
+     \A P \in SUBSET GS : \A K \in SUBSET GS : \A md \in {"none", "ko", "flag"} :
+        (InScope_prior(out.M, P, md) /\ (md = "none" => P = {})) =>
+           \A p \in Perms(K) :
+              /\ GeneDeletionProtocol(out.M, p, P, md) = GeneDeletionZero(out.M, K, P, md)
+              /\ GeneDeletionZero(out.M, K, P, md) = GeneKO(out.M, K \cup P)
 \* and / or are what they say: a rule is monotone in the set of functional genes; `and` needs both
 ThmRuleEval ==
   Built => \A r \in RIdx(out.M) : LET t == out.M.rules[r] IN
